@@ -827,3 +827,60 @@ def _finite_chain(se, a, kw):
     n = z3.Int("n!fc")
     return vbool(z3.ForAll([n], z3.Implies(z3.And(n > 0, inh0[n] != 0), z3.And(dp(inh0[n]) < dp(n), dp(n) > 0, inh0[n] > 0)),
                            patterns=[inh0[n]]))
+
+
+@specfun("generated_source")
+def _generated_source(se, a, kw):
+    return V(STR, ops.UF("generated_source", z3.IntSort(), z3.IntSort(), z3.IntSort(), z3.BoolSort(), z3.StringSort())(
+        a[0].t, box(a[1]).t, box(a[2]).t, a[3].t))
+
+
+def _src_encoding(a):
+    args = (a[0].t, box(a[1]).t, box(a[2]).t)
+    isn = ops.UF("lexer_encoding_none", z3.IntSort(), z3.IntSort(), z3.IntSort(), z3.BoolSort())(*args)
+    val = ops.UF("lexer_encoding", z3.IntSort(), z3.IntSort(), z3.IntSort(), z3.StringSort())(*args)
+    return isn, val
+
+
+@specfun("lexer_encoding")
+def _lexer_encoding(se, a, kw):
+    isn, val = _src_encoding(a)
+    return vopt(STR, isn, V(STR, val))
+
+
+@specfun("encoded_source")
+def _encoded_source(se, a, kw):
+    """the module source generated WITH the magic comment, encoded with the encoding the lexer
+    determined for this source (ascii when it determined none)"""
+    src = ops.UF("generated_source", z3.IntSort(), z3.IntSort(), z3.IntSort(), z3.BoolSort(), z3.StringSort())(
+        a[0].t, box(a[1]).t, box(a[2]).t, z3.BoolVal(True))
+    isn, val = _src_encoding(a)
+    enc = z3.If(z3.Or(isn, z3.Length(val) == 0), z3.StringVal("ascii"), val)
+    return V(BYTES, ops.UF("str_encode", z3.StringSort(), z3.StringSort(), z3.StringSort(), z3.StringSort())(src, enc, z3.StringVal("strict")))
+
+
+SPECFUNS["fs_new_name"] = _uf_spec("fs_new_name", ["str"], "bool")
+
+
+@specfun("fs_content")
+def _fs_content(se, a, kw):
+    return V(ANY, ops.UF("fs_content", z3.StringSort(), z3.IntSort())(a[0].t))
+
+
+@specfun("file_magic")
+def _file_magic(se, a, kw):
+    return V(INT, ops.UF("file_magic", z3.StringSort(), z3.IntSort(), z3.IntSort())(unopt(a[0]).t, a[1].t))
+
+
+@specfun("G_int")
+def _g_int(se, a, kw):
+    q = z3.simplify(a[0].t).as_string()
+    return V(INT, z3.Const("G_" + q, z3.IntSort()))
+
+
+SPECFUNS["pabspath"] = _uf_spec("pabspath", ["str"], "str")
+
+
+@specfun("isnone_any")
+def _isnone_any(se, a, kw):
+    return vbool(a[0].t == 0)
